@@ -842,7 +842,6 @@ func (d *Doc) checkLights(cs Case, reach map[int]bool, add adder) {
 	}
 }
 
-
 // trsClass: the transform selector as it appears in violation classes (ladder rungs collapse).
 func trsClass(sel string) string {
 	if _, ok := ladderRung(sel); ok {
